@@ -4,7 +4,7 @@ import re
 
 from ..rules import *  # noqa
 from ..model import X, show, loc, walk
-from ..cfg import Flow, Slicer, find_calls, call_sites
+from ..cfg import Flow, Slicer, find_calls, call_sites, show_fact
 from .. import bits, ranges
 
 CODECS = {
@@ -742,6 +742,17 @@ def ext_time_rule(ctx, rule):
         rule.ok("parse_sct without SCT-High", "Ok(None) under %s == 0" % hi, loc(f.sp))
     else:
         rule.violation("parse_sct without SCT-High", "Ok(None) is not tied to SCT-High == 0", loc(f.sp))
+    # refusals: only a length that disagrees with the flags (or an unrepresentable time) - SCT-High alone (8 bytes) is a valid EXT_TIME
+    for bb, e in ret_assign_blocks(f.body, lambda e: is_variant(e, "Err")):
+        fs = fl.facts_at(bb)
+        mism = any(a[0] == "eq" and not t and "len(" in show(a[1]) + show(a[2]) and "expected_len" in show(a[1]) + show(a[2]) for (a, t) in fs)
+        key = "parse_sct refusal"
+        if mism:
+            rule.ok(key, "Err under ext.len() != expected_len", loc(f.sp))
+        else:
+            rule.violation(key, "parse_sct refuses an extension under %s: RFC 5651 allows any combination of the four time flags (e.g. SCT-High alone, "
+                                "8 bytes); the only structural refusal is a length that disagrees with the flags" % (
+                                    "; ".join(show_fact(x) for x in fs if x[0][0] in ("lt", "le", "eq"))[:160] or "no length/flag comparison"), loc(f.sp))
     # the NTP value handed to ntp_to_system_time
     calls = call_sites(f, lambda p, c: p == "tools::ntp_to_system_time")
     if not calls:
@@ -862,7 +873,7 @@ def ext_time_rule(ctx, rule):
         rule.ok("ntp_to_system_time", "unix seconds = (ntp >> 32) - 2208988800", loc(r_.sp))
     else:
         rule.violation("ntp_to_system_time", "the unix seconds are not (ntp >> 32) - 2208988800", loc(r_.sp))
-    rule.floor(11, "EXT_TIME facts")
+    rule.floor(12, "EXT_TIME facts")
 
 
 # R7: the first LCT word and the value-dependent field lengths (structure only: which flag drives which length)
